@@ -30,7 +30,7 @@ fn plan(check: &str, tier: &str) -> (u64, f64) {
         "C18" => 3_500,
         "C20" => 3_000,
         "C10" => 2_500,
-        "C11" => 2_000,
+        "C11" => 4_000,
         "C06" => 1_500,
         "C16" => 1_200,
         _ => 2_000,
